@@ -150,3 +150,28 @@ def pc_domain(case, lo):
                      % (case.meta["scheme"], case.meta["refuse_kind"], case.fields["supported_degree"][0], case.fields["supported_hiding"][0],
                         " ".join(case.fields["bounds"]), case.fields["max_degree"][0]))
     return fails
+
+
+def pc_serialization(case, lo):
+    """C12 on the implementation: re-serialization identical, reported size = bytes written, every proper prefix
+    is an error, decisions with deserialized key / commitments / proof unchanged"""
+    fails = []
+    if case.kind != "pc" or "c12" not in case.fields:
+        return fails
+    sch = case.meta["scheme"]
+    for k, v in lo.items():
+        parts = k.split(".")
+        if parts[0] == "rt" and v[1][0] != "ok":
+            fails.append("%s %s (%s): serialize/deserialize/serialize -> %s" % (sch, parts[1], "compressed" if parts[2] == "c" else "uncompressed", v[1][0]))
+        if parts[0] == "sz":
+            ln = lo.get("len." + ".".join(parts[1:]))
+            if ln and ln[1] != v[1]:
+                fails.append("%s %s (%s): serialized_size %s but %s bytes written" % (sch, parts[1], parts[2], v[1][0], ln[1][0]))
+        if parts[0] == "tr" and any(x == "ok" for x in v[1]):
+            fails.append("%s %s (%s): a truncated serialization deserializes successfully" % (sch, parts[1], parts[2]))
+    for tag in ("c", "u"):
+        if lib_s(lo, "deser_check." + tag) not in (None, "accept"):
+            fails.append("%s: verification with deserialized key, commitments and proof (%s) -> %s" % (sch, tag, lib_s(lo, "deser_check." + tag)))
+        if lib_s(lo, "deser_check_bad." + tag) == "accept":
+            fails.append("%s: verification with deserialized inputs accepts a false value" % sch)
+    return fails
